@@ -105,7 +105,7 @@ pub fn check(case: &Case) -> Verdict {
     }
     // the results depend on the operands only
     let h = crate::hist::mix(&[crate::hist::mix_str(&amt::key(a)), crate::hist::mix_str(&amt::key(k)), case.unit as u64]);
-    if h % 4 == 0 {
+    if h % 16 == 0 {
         let obs = || {
             format!(
                 "k*q {}, q*k {}, q/k {}",
